@@ -312,6 +312,12 @@ def parse_worker(text):
             if int(parts[1]) >= 0:
                 cands.append({"run": int(parts[1]), "cls": "died",
                               "detail": parts[2] if len(parts) > 2 else "", "plan": None, "died": True})
+            else:
+                # died during the warm-up: the announced warm-up plan is the candidate
+                m = re.search(r"^WARMUP-BEGIN\n(.*?)^WARMUP-END$", text, re.M | re.S)
+                if m:
+                    cands.append({"run": 0, "cls": "died", "detail": "during warm-up", "plan": m.group(1),
+                                  "died": True})
         i += 1
     return stats, cands
 
